@@ -275,7 +275,11 @@ func runC13(c C13Case, cs *kit.CaseStats) (err error) {
 	}
 	if !bothApplied {
 		cs.Class("path-through-never-applied-blocks")
-		return nil // such blocks carry no supplement; only "no panic" is asserted
+		if uerr != nil {
+			return nil // such blocks carry no supplement and are legitimately refused
+		}
+		// not refused: then the result is held to the same standard as any other
+		cs.Class("path-through-never-applied-blocks:accepted")
 	}
 	if len(reverted) > 0 && len(appliedPath) > 0 {
 		cs.Class("path:revert+apply")
